@@ -270,7 +270,7 @@ private def repo : Builder Nat :=
   match buildFrom [] [⟨day 1, ⟨1, 1⟩, ⟨5, 0⟩⟩, ⟨day 10, ⟨1, 1⟩, ⟨5/2, 0⟩⟩] with
   | .ok b => build b
   | _ => []
-private def env : Env Nat Nat := ⟨⟨64, fun _ _ => 0, fun _ l => l⟩, repo, fun a b => decide (a ≤ b), fun a b => decide (a ≤ b)⟩
+private def env : Env Nat Nat := ⟨⟨64, fun _ _ _ _ => 0, fun _ l => l⟩, repo, fun a b => decide (a ≤ b), fun a b => decide (a ≤ b)⟩
 /-- account 7 receives 0.5 c1 on day 5 and 1 c1 + 3 c2 on day 15 -/
 private def txns : List (OutTxn Nat Nat) :=
   [⟨day 5, [⟨7, [(1, 1/2)], none⟩]⟩, ⟨day 15, [⟨7, [(1, 1), (2, 3)], none⟩]⟩]
